@@ -210,6 +210,57 @@ def main():
                          "sign, sin, exp, mod, power, k1 = (np.array(t[c]) for c in ('sign', 'sin', 'exp', 'mod', 'power', 'k1'))\n"
                          f"want = {ex}\nfor g in (t[{ex!r}], t.cols[{ex!r}][{ex!r}], t._select(None, [{ex!r}])[{ex!r}], [t[{ex!r}, i] for i in range(n)]):\n"
                          "    assert len(g) == len(want) and np.allclose(np.array(g, dtype=float), want), (g, want)\n", "Table.__getitem__")
+    rac.section("in-place+derive", "every sequence of <= 2 in-place changes of a table through its API (an entry re-assigned as a column and back, new columns from "
+                "arrays / lists / RAGGED lists that numpy refuses, deletions, a cell write, a column of the wrong length -- refused assignments are caught) "
+                "with a derivation BEFORE the first change (whatever the table remembers about its entries is warm) and after every change: the table itself "
+                "and every derived table are rectangular, derived tables carry exactly the current non-column entries", "12 changes, sequences <= 2, 3 derivations, tables of 2..4 rows")
+    INPL = {
+        "entry becomes a column": "t['sc'] = np.arange(len(t)) * 1.5", "column becomes an entry": "del t['b']; t['b'] = 7.0",
+        "new entry": "t['note'] = 'x'", "new column (array)": "t['zz'] = np.zeros(len(t))", "new column (list)": "t['yy'] = [float(i) for i in range(len(t))]",
+        "new column (ragged list, refused)": "t['rag'] = [[1.0], [1.0, 2.0]] + [[3.0]] * (len(t) - 2)",
+        "new column (wrong length, refused)": "t['wl'] = np.zeros(len(t) + 1)", "delete column": "del t['a']", "pop entry": "t.pop('title')",
+        "cell write": "t['a', 0] = -5.0", "entry replaced by an array entry": "t['sc'] = np.eye(3)", "column re-assigned": "t['b'] = np.arange(len(t))[::-1]",
+    }
+    DER = ["t.rows[1:]", "t.rows[[0]]", "t.cols['name txt']"]
+
+    def entries_ok(src_t, res):
+        a = {k: repr(src_t._data[k]) for k in src_t._data if k not in src_t._col_names}
+        b = {k: repr(res._data[k]) for k in res._data if k not in res._col_names}
+        return a == b, a, b
+    for n in (2, 3, 4):
+        for seq in [(a,) for a in INPL] + [(a, b) for a in INPL for b in INPL if a != b]:
+            if len(seq) == 2 and (n != 3 or rac.out_of_time(0.9)):
+                continue
+            for dsrc in DER:
+                key = f"in-place n={n} {' ; '.join(seq)} / {dsrc}"
+                script = PRELUDE + SRC + f"t = mk({n}, 1)\n{dsrc}\n" + "".join(
+                    f"try:\n    {INPL[c]}\nexcept (ValueError, KeyError, TypeError):\n    pass\nassert not rect(t), rect(t)\nr = {dsrc}\nassert not rect(r), rect(r)\n"
+                    "assert {k: repr(t._data[k]) for k in t._data if k not in t._col_names} == {k: repr(r._data[k]) for k in r._data if k not in r._col_names}\n" for c in seq)
+                t = mk(n, 1)
+                try:
+                    eval(dsrc, dict(t=t, np=np))
+                except Exception:      # noqa
+                    continue
+                rac.case((n, seq, dsrc), sample=dict(rows=n, changes=list(seq), derivation=dsrc))
+                for c in seq:
+                    try:
+                        exec(INPL[c], dict(t=t, np=np))
+                    except Exception:      # noqa  (refused assignment: the caller goes on with the table)
+                        pass
+                    bad = rect(t)
+                    if bad:
+                        rac.fail(key, f"C14 {key}: after '{c}' the table itself is not rectangular: {bad[:2]}", script, "Table.__setitem__")
+                        break
+                    try:
+                        res = eval(dsrc, dict(t=t, np=np))
+                    except Exception:      # noqa  (a derivation that raises produces no table: not constrained by the statement --
+                        continue               #  e.g. a column assigned as a plain Python list cannot be indexed with a list of positions)
+                    bad = rect(res)
+                    ok, a, b = entries_ok(t, res)
+                    if bad or (not ok and "cols" not in dsrc):
+                        rac.fail(key, f"C14 {key}: after '{c}' the derived table " + (f"is not rectangular: {bad[:2]}" if bad else f"carries entries {sorted(b)} while its source has {sorted(a)}"),
+                                 script, "Table._select_rows")
+                        break
     rac.section("constructor", "the checked constructor rejects non-rectangular input", "5 malformed inputs + 3 well-formed")
     bads = {"unequal lengths": "xdeps.Table({'name': np.array(['a', 'b'], dtype=object), 'x': np.array([1.0])})",
             "index missing": "xdeps.Table({'x': np.array([1.0])}, index='name')",
